@@ -21,11 +21,13 @@ def pick(seq, seed, k):
 LEMIRE_RANGE = {"f64": (-342, 308), "f32": (-65, 38)}
 
 
-def lemire_rows(f, tier, seed, base, n_seeded=6):
+def lemire_rows(f, tier, seed, base, n_seeded=6, small=False):
     """Kernel ids `base_<f>@q=<row>` for the boundary rows (always) plus a seeded sample (quick)
     or every row (thorough), plus the two unbounded ranges outside the table."""
     lo, hi = LEMIRE_RANGE[f]
     core = {lo - 1, lo, lo + 1, -28, -27, -5, -1, 0, 1, 22, 23, 27, 28, 55, 56, hi - 1, hi, hi + 1}
+    if small and tier != "thorough":
+        core = {lo, -28, -27, 0, 23, 28, 55, 56, hi}
     if tier == "thorough":
         rows = set(range(lo - 1, hi + 2))
     else:
